@@ -55,6 +55,8 @@ def build_atom(cfg):
 
 STRING_CATALOGUE = ["", "A", "abc", "\x00", "é", "€", "ÿ", "𝄞", "a\x00b", "Ā", "abcdefgh",
                     "퟿", "\x7f\x80"]
+# strings whose UTF-16 code units contain / straddle the two-byte termination sequences
+STRING_CATALOGUE += ["\u0100\x00A", "A\x00", "\uffff\u00ff\uffff", "A\uff00\u00ffB"]
 
 
 def the_value(sx, a):
@@ -371,7 +373,7 @@ def atoms(tier, seed):
         for lbl in (4, 8, 12, 16):
             for bitpos in (0, 4):
                 for hl in (True, False):
-                    vals = (range(0, 4) if dtp == "A_BYTEFIELD" else (0, 1, 2, 4, 5, 7, 10))
+                    vals = (range(0, 4) if dtp == "A_BYTEFIELD" else (0, 1, 2, 4, 5, 7, 10, 13))
                     for x in vals:
                         a = dict(dt=dtp, enc=None, dct="leading", bl=lbl, bitpos=bitpos,
                                  bytepos=None, hl=hl)
